@@ -178,6 +178,20 @@ func monikerOf(n int) string {
 	return strings.Repeat("m", n)
 }
 
+// descOf: the description an application carries — five distinct fields (the model keeps the moniker only; the monitors
+// compare all five with what the pending list and, after admission, the validator record hold)
+func descOf(m MsgSpec) poa.Description {
+	if m.Moniker == 0 {
+		return poa.Description{} // the empty description, which Validate refuses (the model's case "all lengths zero")
+	}
+	return poa.Description{Moniker: monikerOf(m.Moniker), Identity: fmt.Sprintf("id-%d", m.Val), Website: fmt.Sprintf("https://v%d.example", m.Val),
+		SecurityContact: fmt.Sprintf("sec-%d@example", m.Val), Details: fmt.Sprintf("details of %d/%d", m.Val, m.Cons)}
+}
+
+func descKey(moniker, identity, website, security, details string) string {
+	return strings.Join([]string{moniker, identity, website, security, details}, "\x1f")
+}
+
 func (c *Chain) buildMsg(m MsgSpec) (sdk.Msg, error) {
 	k := c.Keys
 	sender := k.accAddr(m.Sender).String()
@@ -196,7 +210,7 @@ func (c *Chain) buildMsg(m MsgSpec) (sdk.Msg, error) {
 		return &poa.MsgRemovePending{Sender: sender, ValidatorAddress: valStr(m.Val)}, nil
 	case "create":
 		msg := &poa.MsgCreateValidator{
-			Description:       poa.Description{Moniker: monikerOf(m.Moniker)},
+			Description:       descOf(m),
 			Commission:        poa.CommissionRates{Rate: optDec(m.Rate), MaxRate: optDec(m.MaxRate), MaxChangeRate: optDec(m.MaxChg)},
 			MinSelfDelegation: sdkmath.NewInt(m.MSD),
 			ValidatorAddress:  valStr(m.Val),
